@@ -24,10 +24,11 @@ import (
 // that application reaches the application's handler.
 
 type CDCase struct {
-	ID      uint32 `json:"id"`       // 7101..7103: not in dict.Default
-	Typ     string `json:"typ"`      // auth | acct
-	CEAForm string `json:"cea_form"` // plain: Auth-/Acct-Application-Id; vsa: inside a Vendor-Specific-Application-Id group
-	Foreign bool   `json:"foreign"`  // the CEA shares another id the client's dictionary does not declare: the dial must fail
+	ID      uint32 `json:"id"`                // 7101..7103: not in dict.Default
+	Typ     string `json:"typ"`               // auth | acct
+	Untyped bool   `json:"untyped,omitempty"` // the dictionary declares the application WITHOUT a type attribute (it then serves both)
+	CEAForm string `json:"cea_form"`          // plain: Auth-/Acct-Application-Id; vsa: inside a Vendor-Specific-Application-Id group
+	Foreign bool   `json:"foreign"`           // the CEA shares another id the client's dictionary does not declare: the dial must fail
 }
 
 func runClientDict(c CDCase) *ev.Failure {
@@ -41,7 +42,11 @@ func runClientDict(c CDCase) *ev.Failure {
 			base = e.XML
 		}
 	}
-	doc := fmt.Sprintf("<?xml version=\"1.0\" encoding=\"UTF-8\"?>\n<diameter>\n <application id=\"%d\" type=\"%s\" name=\"Own\">\n  <command code=\"8388001\" short=\"OW\" name=\"Own\"><request><rule avp=\"Session-Id\" required=\"false\"/></request><answer><rule avp=\"Session-Id\" required=\"false\"/></answer></command>\n </application>\n</diameter>\n", c.ID, c.Typ)
+	typeAttr := fmt.Sprintf(" type=\"%s\"", c.Typ)
+	if c.Untyped {
+		typeAttr = ""
+	}
+	doc := fmt.Sprintf("<?xml version=\"1.0\" encoding=\"UTF-8\"?>\n<diameter>\n <application id=\"%d\"%s name=\"Own\">\n  <command code=\"8388001\" short=\"OW\" name=\"Own\"><request><rule avp=\"Session-Id\" required=\"false\"/></request><answer><rule avp=\"Session-Id\" required=\"false\"/></answer></command>\n </application>\n</diameter>\n", c.ID, typeAttr)
 	p, err := dicts.Load(base, doc)
 	if err != nil {
 		return ev.Failf("harness-dict", "%v", err)
@@ -133,14 +138,14 @@ func runClientDict(c CDCase) *ev.Failure {
 
 var clientDictProp = ev.Register(&ev.Prop[CDCase]{
 	ID: "C12", Name: "client-dictionary",
-	Rule: "sm.Client with a dictionary of its own (base + one application 7101..7103, auth or acct, with a command of its own; none of it in dict.Default) advertising that application in a Vendor-Specific-Application-Id group, connected with Client.NewConn to a scripted peer whose success CEA shares that application (plain or vendor-specific form) or (1 in 4) only another one; shared: the dial succeeds, the connection uses Client.Dict and an answer of that application reaches the handler; not shared: error and transport closed; every case non-trivial",
+	Rule: "sm.Client with a dictionary of its own (base + one application 7101..7103, declared auth, acct or without a type, with a command of its own; none of it in dict.Default) advertising that application in a Vendor-Specific-Application-Id group, connected with Client.NewConn to a scripted peer whose success CEA shares that application (plain or vendor-specific form) or (1 in 4) only another one; shared: the dial succeeds, the connection uses Client.Dict and an answer of that application reaches the handler; not shared: error and transport closed; every case non-trivial",
 	Gen: func(t *rapid.T) CDCase {
-		return CDCase{ID: rapid.SampledFrom([]uint32{7101, 7102, 7103}).Draw(t, "id"), Typ: rapid.SampledFrom([]string{"auth", "acct"}).Draw(t, "typ"),
+		return CDCase{ID: rapid.SampledFrom([]uint32{7101, 7102, 7103}).Draw(t, "id"), Typ: rapid.SampledFrom([]string{"auth", "acct"}).Draw(t, "typ"), Untyped: rapid.IntRange(0, 2).Draw(t, "untyped") == 0,
 			CEAForm: rapid.SampledFrom([]string{"plain", "vsa"}).Draw(t, "cea-form"), Foreign: rapid.IntRange(0, 3).Draw(t, "foreign") == 0}
 	},
 	Run: runClientDict,
 	Classify: func(c CDCase) (bool, []string) {
-		return true, []string{"cea:" + c.CEAForm, fmt.Sprintf("shared:%v", !c.Foreign)}
+		return true, []string{"cea:" + c.CEAForm, fmt.Sprintf("shared:%v", !c.Foreign), fmt.Sprintf("application-declared-without-type:%v", c.Untyped)}
 	},
 })
 
